@@ -42,6 +42,11 @@ def run(tier, seed):
     rng = C.rng_for(seed, CID)
     quick = tier == 'quick'
     ok_tr, tr_msg = T.regen_gen()
+    try:
+        import pyside
+        pyside.regen_pypattern()    # Props/C11.v imports Gen/PyPattern.v: regenerate before the proof stage (see c06.py)
+    except Exception:  # noqa: BLE001
+        pass
     P = R.proof_stage()
     if not ok_tr:
         P['ok'] = False
